@@ -13,6 +13,7 @@ type arrivalGroupAccumulator struct {
 	interDepartureThreshold          time.Duration
 	interArrivalThreshold            time.Duration
 	interGroupDelayVariationTreshold time.Duration
+	maxBurstDuration                 time.Duration
 }
 
 func newArrivalGroupAccumulator() *arrivalGroupAccumulator {
@@ -20,6 +21,7 @@ func newArrivalGroupAccumulator() *arrivalGroupAccumulator {
 		interDepartureThreshold:          5 * time.Millisecond,
 		interArrivalThreshold:            5 * time.Millisecond,
 		interGroupDelayVariationTreshold: 0,
+		maxBurstDuration:                 100 * time.Millisecond,
 	}
 }
 
@@ -50,8 +52,12 @@ func (a *arrivalGroupAccumulator) run(in <-chan []cc.Acknowledgment, agWriter fu
 				// A Packet which has an inter-arrival time less than burst_time and
 				// an inter-group delay variation d(i) less than 0 is considered
 				// being part of the current group of packets.
+				// A burst is bounded: the departure of a group is the one of its first
+				// packet, so on a steady stream with less than burst_time between arrivals
+				// the delay variation stays negative and the group would never be closed.
 				if interArrivalTimePkt(group, next) <= a.interArrivalThreshold &&
-					interGroupDelayVariationPkt(group, next) < a.interGroupDelayVariationTreshold {
+					interGroupDelayVariationPkt(group, next) < a.interGroupDelayVariationTreshold &&
+					next.Arrival.Sub(group.packets[0].Arrival) < a.maxBurstDuration {
 					group.add(next)
 
 					continue
